@@ -2280,6 +2280,10 @@ def _verify_dominances_hyperparameters(dominances, dominance_type,
       raise ValueError("%s dominance constraint dimensions must be integers. "
                        "Seeing dominant_dim %s and weak_dim %s" %
                        (dominance_type.capitalize(), dominant_dim, weak_dim))
+    if dominant_dim == weak_dim:
+      raise ValueError("%s dominance constraint must relate two different "
+                       "dimensions. Seeing constraint tuple %s" %
+                       (dominance_type.capitalize(), constraint))
     for dim in [dominant_dim, weak_dim]:
       if not monotonicities or monotonicities[dim] != 1:
         raise ValueError("%s dominance constraint's dimensions must be "
@@ -2443,6 +2447,10 @@ def verify_hyperparameters(lattice_sizes,
       if not isinstance(dim1, int) or not isinstance(dim2, int):
         raise ValueError("Joint monotonicity constraint dimensions must be "
                          "integers. Seeing dimensions %s, %s" % (dim1, dim2))
+      if dim1 == dim2:
+        raise ValueError("Joint monotonicity constraint must relate two "
+                         "different dimensions. Seeing constraint tuple %s" %
+                         (constraint,))
 
   if joint_unimodalities is not None:
     for single_constraint in joint_unimodalities:
